@@ -1,12 +1,9 @@
 SPECIFICATION GSpec
 CONSTANTS
-  Sess = {"s1"}
-  Reqs = {"r1","r2"}
+  Sess = {"s1","s2"}
+  Reqs = {"r1"}
   Gets = {"g1"}
-  Prime <- PrimeAll
-  Store = FALSE
-  Json = TRUE
-  Stateless = FALSE
+  Cfgs <- CfgStoreJson
   MaxEmit = 1
   MaxSreq = 0
   MaxSa = 1
